@@ -31,6 +31,58 @@ theorem whitespace_keepalive_is_ignored (s : St) : step s .recvWhitespace = (s, 
 example : isConnected (run (init { plainOk := true })
     ([.connectToServer, .socketConnected] ++ flowSaslBind ++ [.recvWhitespace])).1 = true := by decide
 
+/-! ### where the next attempt goes -/
+
+/-- **After a non-resumable end the next attempt targets the configured host.**  After ANY history with a live connection:
+if the server ends the stream (`</stream:stream>`, alone or at the end of a read, e.g. after a stream error) — or in fact
+whenever the client itself closes the stream (`disconnectFromHost`: rejected element, failed authentication, …) — the client is
+disconnected, holds no resumable stream, and the next `connectToServer` goes to the configured host, NOT to a `location` that an
+earlier `<enabled resume='true' location=…/>` announced (that address is only meant for resuming that stream). -/
+theorem next_attempt_after_stream_end_targets_configured_host (cfg : Cfg) (script : List Ev)
+    (hc : (run (init cfg) script).1.conn = .connected) :
+    (step (run (init cfg) script).1 .closeTail).1.conn = .disconnected ∧
+    (step (run (init cfg) script).1 .closeTail).1.canResume = false ∧
+    (step (step (run (init cfg) script).1 .closeTail).1 .connectToServer).1.target = .configured ∧
+    ((run (init cfg) script).1.headerSeen = true → (run (init cfg) script).1.wedged = false →
+      (step (step (run (init cfg) script).1 (.recv .streamClose)).1 .connectToServer).1.target = .configured) := by
+  have hred : (run (init cfg) script).1.redirect = false := run_red script (init cfg) rfl
+  generalize (run (init cfg) script).1 = s at *
+  refine ⟨?_, ?_, ?_, ?_⟩
+  · simp [step, disconnectFromHost, socketClose, hc, onSocketDisconnected, hred, closeSession]
+  · simp [step, disconnectFromHost, socketClose, hc, onSocketDisconnected, hred, closeSession]
+  · simp [step, disconnectFromHost, socketClose, hc, onSocketDisconnected, hred, closeSession, connectTarget]
+  · intro hh hw
+    simp [step, recv, hh, hw, disconnectFromHost, socketClose, hc, onSocketDisconnected, hred, closeSession, connectTarget]
+
+/-- SASL PLAIN + bind + `<enable/>` answered by `<enabled resume='true'/>`, with (`loc`) or without a `location` -/
+def sessionSm (loc : Bool) : List Ev :=
+  [.connectToServer, .socketConnected, .recv (.header true true), .recv (.features { mechs := some .plain }),
+   .recv (.saslSuccess true), .recv (.header true true), .recv (.features { bind := true, sm := true }),
+   .recv (.iq (.bindResult .ok)), .recv (.smEnabled true loc)]
+
+/-- **Defect (open, `C10:next-attempt-targets-stale-resume-location`): a resume location outlives its stream.**  Full statement
+(false): "a reconnect goes to the `location` only to resume the stream whose `<enabled/>` named it".  Witness: a resumable session
+whose `<enabled/>` names a location; the server ends the stream (stream error + `</stream:stream>`: nothing to resume, and indeed
+the next attempt goes to the configured host); a NEW resumable session on the configured host whose `<enabled/>` names NO
+location; the connection is lost.  The reconnect goes to the location of the first, dead stream — `C2sStreamManager::onEnabled`
+only overwrites `m_resumeHost/m_resumePort` when a location is given and never clears them.  Suggested fix:
+`fixes/C10-stale-resume-location.diff` (forget the address when `<enabled/>` names none). -/
+theorem C10_defect_stale_resume_location :
+    ∃ (cfg : Cfg) (script : List Ev),
+      script = sessionSm true ++ [.recv (.streamError false), .closeTail] ++ sessionSm false ++ [.socketDisconnected] ∧
+      (run (init cfg) (sessionSm true ++ [.recv (.streamError false), .closeTail] ++ [.connectToServer])).1.target = .configured ∧
+      (run (init cfg) script).1.conn = .disconnected ∧ (run (init cfg) script).1.canResume = true ∧
+      (step (run (init cfg) script).1 .connectToServer).1.target = .location :=
+  ⟨{ plainOk := true }, _, rfl, by decide, by decide, by decide, by decide⟩
+
+/-- In every state: a client that holds no resumable stream connects to the configured host; the `location` is used exactly
+when the stream manager can still resume (abrupt loss of a resumable session) and a location was announced. -/
+theorem connect_target_spec (s : St) (hd : s.conn = .disconnected) :
+    (s.canResume = false → (step s .connectToServer).1.target = .configured) ∧
+    (s.canResume = true → s.resumeLoc = true → (step s .connectToServer).1.target = .location) ∧
+    (s.resumeLoc = false → (step s .connectToServer).1.target = .configured) := by
+  refine ⟨?_, ?_, ?_⟩ <;> intros <;> simp_all [step, connectTarget]
+
 /-! ### after the cut -/
 
 /-- **The cut leaves a disconnected client with no session reported.**  After ANY history that ends with a live connection,
